@@ -857,7 +857,92 @@ def gen_c06_dense(rng, mode):
     return g.finish()
 
 
+def gen_c01_dense(rng, mode):
+    """Dense primary-key universe (all strings over two letters up to length 3 plus one outlier) so that keys sit
+    on inner nodes with one or several children; every transaction performs 2-3 writes WITHOUT a query in between
+    (a query through the transaction would freeze the nodes it owns), half of them aimed at one node: touch a key
+    (modify it, have a compare-and-swap on it rejected, write or delete a key directly below it) and then delete
+    it; committed, aborted or left pending while every earlier snapshot is queried again key by key."""
+    import itertools
+    g = DBGen(rng, mode)
+    g.add(op="config", nilempty=False)
+    t = g.newtable()
+    alpha = rng.choice([[1, 2], [97, 98], [0, 255]])
+    universe = [list(x) for n in range(1, 4) for x in itertools.product(alpha, repeat=n)] + [[alpha[0] + 7]]
+    live = set()
+
+    def obj(pk):
+        return dict(pk=pk, val=rng.randint(1, 9), hasU=False, u=[], tags=[], pfx=[], hasUp=False, upfx=[])
+
+    snaps = []
+
+    def observe(src, ctx=""):
+        for pk in universe:
+            g.q(src, t, "id", "get", pk, ctx=ctx)
+        for pk in ([], [alpha[0]], [alpha[0], alpha[0]], [alpha[1]]):
+            g.q(src, t, "id", "prefix", pk, ctx=ctx)
+        g.q(src, t, "id", "lowerbound", [alpha[0], alpha[1]], ctx=ctx)
+        g.q(src, t, "id", "all", [], ctx=ctx)
+        g.scalar(src, t, "num", ctx=ctx)
+
+    tx = g.begin([t])
+    for pk in rng.sample(universe, rng.randint(4, 9)):
+        g.add(op="insert", tx=tx, t=t, obj=obj(pk), guard=0, gsym="", w=0)
+        live.add(tuple(pk))
+    s0 = g.commit(tx)
+    observe(g.snap_src(s0))
+    snaps.append(s0)
+    for _ in range(rng.randint(3, 6)):
+        tx = g.begin([t])
+        now = set(live)
+        parents = [k for k in now if any(len(c) > len(k) and c[:len(k)] == k for c in now)]
+        if parents and rng.random() < 0.6:
+            K = list(rng.choice(sorted(parents)))
+            below = [list(c) for c in sorted(now) if len(c) == len(K) + 1 and list(c[:len(K)]) == K]
+            r = rng.random()
+            if r < 0.3:
+                g.add(op="modify", tx=tx, t=t, obj=obj(K), guard=0, gsym="", w=0)
+            elif r < 0.5:
+                g.add(op="cas", tx=tx, t=t, obj=obj(K), guard=0, gsym="stale", w=0)
+            elif r < 0.75 and below:
+                c = rng.choice(below)
+                g.add(op="delete", tx=tx, t=t, obj=obj(c), guard=0, gsym="", w=0)
+                now.discard(tuple(c))
+            else:
+                c = K + [rng.choice(alpha)]
+                g.add(op="insert", tx=tx, t=t, obj=obj(c), guard=0, gsym="", w=0)
+                now.add(tuple(c))
+            g.add(op="delete", tx=tx, t=t, obj=obj(K), guard=0, gsym="", w=0)
+            now.discard(tuple(K))
+        else:
+            for _ in range(rng.randint(2, 3)):
+                pk = rng.choice(universe)
+                if rng.random() < 0.5:
+                    g.add(op=rng.choice(["insert", "modify"]), tx=tx, t=t, obj=obj(pk), guard=0, gsym="", w=0)
+                    now.add(tuple(pk))
+                else:
+                    g.add(op="delete", tx=tx, t=t, obj=obj(pk), guard=0, gsym="", w=0)
+                    now.discard(tuple(pk))
+        r = rng.random()
+        if r < 0.25:
+            for s in snaps:
+                observe(g.snap_src(s))          # while the transaction is pending
+        if rng.random() < (0.5 if mode == "c02dense" else 0.25):
+            g.abort(tx)
+            s2 = g.snap()
+            observe(g.snap_src(s2), ctx="postabort")
+        else:
+            s2 = g.commit(tx)
+            live = now
+            observe(g.snap_src(s2))
+        snaps.append(s2)
+        for s in snaps[:-1]:
+            observe(g.snap_src(s))
+    return g.finish()
+
+
 MODES = {
+    "c01dense": gen_c01_dense, "c02dense": gen_c01_dense,
     "c06dense": gen_c06_dense,
     "gcwindow": gen_gcwindow,
     "c06inner": gen_c06_inner,
